@@ -155,12 +155,12 @@ fn run(ctx: &mut Ctx) {
         // DIFAT chains need > 109 FAT sectors: > 6.8 MiB with 512-byte sectors
         let big = || {
             // one DIFAT sector (> 109 FAT sectors) or two (> 236 FAT sectors, > 15.5 MB)
-            (prop_oneof![2 => 7_200_000u32..7_600_000, 1 => 15_600_000u32..16_300_000], any::<u32>(), layout_strategy(), size_strategy(5000)).prop_map(|(len, seed, mut layout, small)| {
+            (prop_oneof![2 => 7_200_000u32..7_600_000, 2 => 6_900_000u32..7_250_000, 1 => 15_600_000u32..16_300_000], any::<u32>(), layout_strategy(), size_strategy(5000)).prop_map(|(len, seed, mut layout, small)| {
                 layout.v4 = false;
                 Case { streams: vec![StreamSpec { path: vec![], name: "Workbook".into(), len, seed }, StreamSpec { path: vec![], name: "x".into(), len: small, seed: 1 }], layout }
             })
         };
-        let n = ctx.n(3, 24);
+        let n = ctx.n(5, 40);
         ctx.run("container-difat", n, big, oracle);
     }
     {
